@@ -190,4 +190,20 @@ def hashZipNames (entries : List (Bytes × Bytes)) : List Bytes := entries.map (
 def hashZip (sha : Bytes → Bytes) (entries : List (Bytes × Bytes)) : Except Err Bytes :=
   hash1 sha (hashZipNames entries) (lookupLast entries)
 
+/-! ### module zips (naming only: `zip.Create` writes entry `path@version/` ++ file path, in list order;
+    `zip.Unzip` writes entry `prefix ++ rel` to `dir/rel`) -/
+
+def modPrefix (path version : Bytes) : Bytes := path ++ [64] ++ version
+
+def modZipEntries (path version : Bytes) (files : List (Bytes × Bytes)) : List (Bytes × Bytes) :=
+  files.map fun f => (modPrefix path version ++ [slash] ++ f.1, f.2)
+
+/-- HashZip of the archive `zip.Create` writes for these (valid, not omitted) files -/
+def hashModZip (sha : Bytes → Bytes) (path version : Bytes) (files : List (Bytes × Bytes)) : Except Err Bytes :=
+  hashZip sha (modZipEntries path version files)
+
+/-- HashDir of the directory that archive extracts to, under the prefix `path@version` -/
+def hashUnzipped (sha : Bytes → Bytes) (path version : Bytes) (files : List (Bytes × Bytes)) : Except Err Bytes :=
+  hashDir sha (.dir files) (modPrefix path version)
+
 end ModVerif.Dirhash
